@@ -18,6 +18,7 @@ import EasyMl.Lemmas.Transform
 import EasyMl.Lemmas.Equality
 import EasyMl.Lemmas.Swap
 import EasyMl.Lemmas.MapZip
+import EasyMl.Lemmas.MapMut
 
 namespace EasyMl.C13
 open EasyMl EasyMl.Spec
@@ -248,6 +249,26 @@ theorem tensor_map_eq (f : α → β) (g : List Nat → α → β) (shape : Shap
 
 theorem mapMut_eq_map (f : α → α) (t : Tensor ν α) : t.mapMut f = t.map f := rfl
 
+/-- **`map_mut_with_index` = `map_with_index`**, every shape: the loop over
+    `iter_reference_mut().with_index()` (read a cell, overwrite it) visits every cell exactly once
+    and never reads a cell it has already overwritten. -/
+theorem mapMutWithIndex_eq_mapWithIndex (f : List Nat → α → α) (shape : Shape ν) (data : List α)
+    (t : Tensor ν α) (ht : Tensor.tryFrom shape data = some t) :
+    t.mapMutWithIndex f = t.mapWithIndex f :=
+  Tensor.mapMutWithIndex_eq f shape data t ht
+
+/-- **In-place mapping through a reordered view of a tensor** (`TensorAccess::map_mut*`): the
+    tensor afterwards is a valid tensor of the same shape which, seen through the same ordering,
+    is the mapped view of the original (so no element is visited twice or skipped whatever the
+    ordering). -/
+theorem access_mapMut_eq_map [Inhabited ν] (f : List Nat → α → α) (shape : Shape ν)
+    (data : List α) (t : Tensor ν α) (ht : Tensor.tryFrom shape data = some t) (names : List ν)
+    (a : Access ν α) (ha : t.indexBy names = some a) :
+    ∃ d', Tensor.tryFrom shape d' = some (a.mapMutWithIndex f) ∧
+      materialise (reordered (ofData shape d') names) =
+        materialise (mappedWithIndex f (reordered (ofData shape data) names)) :=
+  Access.mapMutWithIndex_eq f shape data t ht names a ha
+
 /-- **elementwise** (with and without index; `Tensor` and `TensorView` forms): panic exactly
     when the two shapes differ, otherwise the value of the element-wise combined view. -/
 theorem elementwise_eq_materialise_zip [DecidableEq (Shape ν)] (f : α → α → α)
@@ -405,6 +426,10 @@ theorem similar_iff_exists_reorder [DecidableEq α] [Inhabited ν] (l r : TView 
       rw [tensorEquality_iff _ _ hl (hrv.of_equiv he), materialise_congr he] at heq
       exact ⟨names, hp, heq.symm⟩
     · rw [if_neg hp] at hre; cases hre
+
+/-- The driver's executable form of the specification (try every ordering) is `Similar`. -/
+theorem similarB_iff_similar [DecidableEq α] (l r : LazyView ν α) :
+    similarB l r = true ↔ Similar l r := similarB_iff l r
 
 theorem similar_refl [DecidableEq α] [Inhabited ν] (v : TView ν α) (hv : v.lazy.Valid) :
     tensorSimilarity v v = true :=
